@@ -37,6 +37,16 @@ CLAIMED = {
             "trusted: TLC, the cfg-guarded event sink; the expectations of the unneeded/shared-position programs are hand-written; "
             "order of evaluation is not compared",
             "DESIGN.md §4 C03"),
+    "C08": ("TLA+ spec Arrays (view terms, documented denotation Den, implementation-shaped Get/LenImpl) model-checked "
+            "by TLC (Get refines Den); every enumerated term replayed through Jsonnet indexing, ArrValue::get and "
+            "whole-array observations",
+            "TLC enumerates all compositions of view operations within the depth bound and checks that the index translation of "
+            "each representation with its own bounds check refines the denotation; every term is then probed on the real "
+            "implementation at every index from -2 to len+2 (source level and Rust API) and through length, ==, <, iteration, "
+            "foldl, toString and manifestation, plus arrays around the 1000-element concatenation threshold",
+            "trusted: TLC, the documented semantics of std.slice/reverse/repeat/range/makeArray/map/filter as transcribed in Den; "
+            "negative slice bounds count from the end; element types limited to numbers, 1-char strings, small arrays",
+            "DESIGN.md §4 C08"),
 }
 
 NOT_YET = "specification module and binding not built yet in this round; see DESIGN.md §4 for the planned model"
